@@ -313,7 +313,36 @@ def unit_fresh_iterator(U):
     C13.unit_init_state(U, prefix="C19.input")
 
 
-UNITS = [("force", unit_force), ("force_empty", unit_force_empty), ("frame", unit_frame), ("fresh_iterator", unit_fresh_iterator)]
+def unit_bounded_lookup_after_rebuild(U):
+    """Bounded: after create_db(new, path, force=True) the database at that path answers from the NEW input through every
+    read path - also the ones used on the old database just before (look-up by id, iteration, counts), on the returned object
+    and on a reopened one"""
+    import tempfile, os, shutil
+    fails, cases = [], 0
+    mk = lambda i, ft, a, **att: F.Feature(seqid="c", source="s", featuretype=ft, start=a, end=a + 5, strand="+", attributes=dict({"ID": [i]}, **{k: [v] for k, v in att.items()}))
+    d = tempfile.mkdtemp()
+    try:
+        path = os.path.join(d, "x.db")
+        old = gffutils.create_db([mk("gene1", "gene", 1, Note="old"), mk("only_in_old", "exon", 10)], path)
+        seen = [old["gene1"].attributes["Note"], old["only_in_old"].id, [f.id for f in old.all_features()], old.count_features_of_type("exon")]
+        old.conn.close()
+        new = gffutils.create_db([mk("gene1", "gene", 100, Note="new"), mk("only_in_new", "exon", 200)], path, force=True)
+        for label, db in (("returned object", new), ("reopened", gffutils.FeatureDB(path))):
+            cases += 1
+            obs = {"gene1.Note": list(db["gene1"].attributes["Note"]), "gene1.start": db["gene1"].start, "ids": sorted(f.id for f in db.all_features()), "exons": db.count_features_of_type("exon")}
+            try:
+                db["only_in_old"]
+                obs["only_in_old"] = "found"
+            except gffutils.FeatureNotFoundError:
+                obs["only_in_old"] = "absent"
+            exp = {"gene1.Note": ["new"], "gene1.start": 100, "ids": ["gene1", "only_in_new"], "exons": 1, "only_in_old": "absent"}
+            if obs != exp:
+                fails.append({"case": {"history": "look-ups on the old database; create_db(new, same path, force=True); read the %s" % label}, "expected": exp, "observed": obs})
+    finally:
+        shutil.rmtree(d, ignore_errors=True)
+    U.bounded_result("C19.bounded.lookup_after_rebuild", "after a forced rebuild every read path answers from the new input only", "one history, 2 handles", cases, fails)
+
+UNITS = [("bounded.lookup_after_rebuild", unit_bounded_lookup_after_rebuild), ("force", unit_force), ("force_empty", unit_force_empty), ("frame", unit_frame), ("fresh_iterator", unit_fresh_iterator)]
 try:
     from standins import C19 as _S
     UNITS = UNITS + list(_S.UNITS)
